@@ -85,6 +85,18 @@ func (fr *frame) obligeSplit(kind, what string, cond Term, p token.Pos, facet st
 
 // splitAnd flattens nested top-level conjunctions.
 func splitAnd(t Term) []Term {
+	if strings.HasPrefix(t, "(=> ") {
+		// (=> A (and x y)) splits into (=> A x), (=> A y)
+		parts := splitTopLevel(t)
+		if len(parts) == 3 && strings.HasPrefix(parts[2], "(and ") {
+			var out []Term
+			for _, c := range splitAnd(parts[2]) {
+				out = append(out, Implies(parts[1], c))
+			}
+			return out
+		}
+		return []Term{t}
+	}
 	if !strings.HasPrefix(t, "(and ") {
 		return []Term{t}
 	}
